@@ -112,7 +112,8 @@ def main():
     if tier not in ("quick", "thorough"):
         tier = "quick"
     seed = int(os.environ.get("VERIF_SEED", "1") or "1")
-    spec = PROPS[pid]
+    from props import PENDING
+    spec = PROPS.get(pid) or PENDING[pid]
     t0 = time.time()
     work = os.path.join(WORK, pid)
     shutil.rmtree(work, ignore_errors=True)
